@@ -470,7 +470,7 @@ pub fn run(ctx: &Ctx) {
         } else {
             fields.push(f(name, the_value, if literal_value { Repr::LiteralNotIndexed } else { Repr::PreferIndexed }));
         }
-        let c = H2Case { request, block: Block { size_updates: vec![], fields }, framing: h2::HeadersFraming { stream: 1, end_stream: true, pad: None, priority: None, splits: vec![], reserved_bit: false }, pre: vec![], body: None, hostile_tail: vec![], flag_xor: 0 };
+        let c = H2Case { request, block: Block { size_updates: vec![], fields }, framing: h2::HeadersFraming { stream: 1, end_stream: true, pad: None, priority: None, splits: vec![], reserved_bit: false, cont_flags: 0 }, pre: vec![], body: None, hostile_tail: vec![], flag_xor: 0 };
         if let Err(fl) = check(&c, st) {
             st.fail(Fail::new(format!("static-entry-{}:{}", entry + 1, fl.what), fl.detail), json!({"entry": entry + 1, "name": name, "literal_value": literal_value, "request": request}));
         }
